@@ -261,6 +261,88 @@ def run_c12(res, tier, seed):
     res.cov["samples"] = [o[:200] for o in observed_all[:6]]
 
 
+def run_c12_lsp(res, tier, seed):
+    """the same contract at the server's surface: a request that is in flight when a change arrives is answered with the answer
+    of the workspace before the change, with the answer of the workspace after it (the request was taken up late), or with an
+    error that reports the cancellation - never with a definite `null`/empty result that neither workspace gives.
+    Request and `didChange` are sent in ONE write, on a module large enough for the query to be running when the change comes."""
+    import lsp, shutil, json as _json
+    lsp.build_glas()
+    rng = random.Random(seed * 41 + 12)
+    base = os.path.join(common.ROOT, "work", f"c12-{os.getpid()}")
+    shutil.rmtree(base, ignore_errors=True)
+    try:
+        root = base + "/p"
+        os.makedirs(root + "/src")
+        open(root + "/gleam.toml", "w").write('name = "p"\n')
+        n = 1200
+        text = ("pub type Shape {\n  Circle(radius: Int)\n  Square(side: Int)\n}\n\npub fn area(shape s: Shape, scale k: Int) {\n  case s {\n    Circle(r) -> r * k\n    Square(x) -> x * k\n  }\n}\n\n"
+                + "".join(f"pub fn f{i}(v) {{\n  area(shape: Circle(v), scale: {i})\n}}\n\n" for i in range(n))
+                + "pub fn last(v) {\n  area(Circle(v), \n}\n")
+        open(root + "/src/m.gleam", "w").write(text)
+        uri = f"file://{root}/src/m.gleam"
+        c = lsp.Lsp(root)
+        try:
+            if c.initialize() is None:
+                return
+            c.notify("textDocument/didOpen", {"textDocument": {"uri": uri, "languageId": "gleam", "version": 1, "text": text}})
+            lines = text.split("\n")
+            last_line = next(i for i, l in enumerate(lines) if l.startswith("  area(Circle(v), "))
+            doc = {"uri": uri}
+            asks = [("textDocument/references", {"textDocument": doc, "position": {"line": 5, "character": 8}, "context": {"includeDeclaration": True}}),
+                    ("textDocument/completion", {"textDocument": doc, "position": {"line": last_line, "character": 2}}),
+                    ("textDocument/signatureHelp", {"textDocument": doc, "position": {"line": last_line, "character": 19}}),
+                    ("textDocument/hover", {"textDocument": doc, "position": {"line": 5, "character": 8}}),
+                    ("textDocument/definition", {"textDocument": doc, "position": {"line": last_line, "character": 3}}),
+                    ("textDocument/documentHighlight", {"textDocument": doc, "position": {"line": 5, "character": 8}}),
+                    ("textDocument/prepareRename", {"textDocument": doc, "position": {"line": 5, "character": 8}})]
+            ver = 1
+            nlines = len(lines)
+            for method, params in asks:
+                quiet = c.request(method, params, timeout=60)
+                if quiet is None or "error" in quiet:
+                    continue
+                for rnd in range(3 if tier == "quick" else 12):
+                    ver += 1
+                    # the change: a comment line appended at the very end (no position of the questions moves, no answer changes)
+                    chg = {"jsonrpc": "2.0", "method": "textDocument/didChange", "params": {"textDocument": {"uri": uri, "version": ver},
+                           "contentChanges": [{"range": {"start": {"line": nlines - 1, "character": 0}, "end": {"line": nlines - 1, "character": 0}}, "text": f"// {ver}\n"}]}}
+                    nlines += 1
+                    with c.lock:
+                        i = c.next_id
+                        c.next_id += 1
+                    req = {"jsonrpc": "2.0", "id": i, "method": method, "params": params}
+                    blob = b""
+                    for obj in (req, chg):
+                        data = _json.dumps(obj).encode("utf-8")
+                        blob += b"Content-Length: %d\r\n\r\n" % len(data) + data
+                    try:
+                        c.p.stdin.write(blob); c.p.stdin.flush()
+                    except (BrokenPipeError, OSError):
+                        break
+                    ans = c.wait(i, timeout=60)
+                    res.cov["evaluations"] += 1
+                    if ans is None:
+                        continue        # liveness is C15's / C16's subject
+                    if "error" in ans:
+                        continue
+                    after = c.request(method, params, timeout=60)
+                    ok = ans.get("result") == quiet.get("result") or (after is not None and ans.get("result") == after.get("result"))
+                    if not ok:
+                        short = _json.dumps(ans.get("result"))[:160]
+                        res.add_violation("C12/lsp-answer-of-no-workspace",
+                                          f"{method.split('/')[1]} sent together with a didChange is answered {short}: neither the answer before the change "
+                                          f"({_json.dumps(quiet.get('result'))[:120]}) nor the one after it, and not an error that reports the cancellation",
+                                          {"method": method, "params": params, "answer": ans.get("result") if len(short) < 150 else short, "round": rnd, "module_functions": n})
+                        break
+                    if after is not None and "error" not in after:
+                        quiet = after
+        finally:
+            c.close()
+    finally:
+        shutil.rmtree(base, ignore_errors=True)
+
+
 def run(prop, res, tier, seed):
     res.assumptions += ["salsa's snapshot / cancellation contract is modelled, not verified: a snapshot reads the revision it was taken at; "
                         "a pending write makes older snapshots unwind at their next query step; the write waits for all snapshots to be dropped",
@@ -270,6 +352,7 @@ def run(prop, res, tier, seed):
     except Broken as b:
         res.add_broken(b.what, b.detail)
     run_c12(res, tier, seed)
+    run_c12_lsp(res, tier, seed)
     if res.disagreements:
         rq, a, b = res.disagreements[0]
         res.add_broken("correspondence model-vs-implementation (M-conc vs the event log of AnalysisHost under concurrency)",
